@@ -242,6 +242,9 @@ def run_driver_case(acc, kind, oset, ns, nc, bi, stp, init, ow, flagged, reuse=N
         run_driver_case(acc, kind, oset, ns % 6 + 1, nc, 0, 2, init, ow, flagged, reuse=(st, ob, system))
         update_params(st, [pattern(n_, 3, r_) for r_, n_ in enumerate(net_sizes(kind, arch))], "copy_")
         run_driver_case(acc, kind, oset, ns, nc, bi, stp, init, ow, flagged, reuse=(st, ob, system))
+        if ns == 3:
+            update_params(st, [pattern(n_, 4, r_) for r_, n_ in enumerate(net_sizes(kind, arch))], "reinit")
+            run_driver_case(acc, kind, oset, ns, nc, bi, stp, init, ow, flagged, reuse=(st, ob, system))
 
 
 def run_item(item):
